@@ -15,7 +15,7 @@
     ([oracle_ok G O]), so the results are independent of the iteration order
     ([C10_order_independent]).  The extracted model runs with [id_oracle G]. *)
 From Coq Require Import List Permutation.
-From Algo.C10 Require Import Model Spec Proofs.
+From Algo.C10 Require Import Model Spec Proofs ProofsIndep.
 Import ListNotations.
 
 (** NullableNonTerminals is exactly the set of non-terminals deriving the empty string
@@ -98,6 +98,19 @@ Theorem C10_order_independent :
                    forall A, In A nu <-> In A nu'.
 Proof. exact order_independent. Qed.
 
+(** For every grammar (valid or not, with or without unreachable non-terminals) all observable
+    results are independent of the iteration oracle: the nullable set, FIRST(α) and FOLLOW(A) as
+    sets (or the panic), the IsLL1 verdict and the BuildParsingTable verdict. *)
+Theorem C10_oracle_independent :
+  forall (G : gram) (O O' : oracle), oracle_ok G O -> oracle_ok G O' ->
+    (forall nu nu', NullableNonTerminals G O = Some nu -> NullableNonTerminals G O' = Some nu' ->
+                    forall A, In A nu <-> In A nu')
+    /\ (forall alpha, res_equiv (FIRST G O alpha) (FIRST G O' alpha))
+    /\ (forall A, res_equiv (FOLLOW G O A) (FOLLOW G O' A))
+    /\ IsLL1 G O = IsLL1 G O'
+    /\ (forall t c t' c', BuildParsingTable G O = Some (t, c) -> BuildParsingTable G O' = Some (t', c') -> c = c').
+Proof. exact oracle_independent. Qed.
+
 (** The oracle of the extracted model (the order of the production list in every pass) is one of
     the oracles the theorems cover; so is every oracle made of permutations. *)
 Theorem C10_id_oracle_ok : forall G : gram, oracle_ok G (id_oracle G).
@@ -140,5 +153,6 @@ Print Assumptions C10_table_cells.
 Print Assumptions C10_ll1_table.
 Print Assumptions C10_terminates.
 Print Assumptions C10_order_independent.
+Print Assumptions C10_oracle_independent.
 Print Assumptions C10_id_oracle_ok.
 Print Assumptions C10_permutation_oracle_ok.
